@@ -11,6 +11,7 @@ import (
 	"os"
 	"sort"
 	"strings"
+	"unicode"
 
 	"golang.org/x/tools/go/ssa"
 )
@@ -134,6 +135,21 @@ func buildParserModel(p *Prog) (*parserModel, string) {
 	for _, c := range []byte("<>=!${}[]()|,: \t\r\n-") {
 		cuts[c] = true
 	}
+	// character-class predicates from package unicode: their boundaries inside
+	// the byte range become cut points as well
+	for _, f := range fns {
+		for _, c := range allCalls(f) {
+			n := calleeName(c.Common())
+			if strings.HasPrefix(n, "unicode.Is") {
+				for b := 0; b < 256; b++ {
+					r := rune(b)
+					if unicode.IsSpace(r) || unicode.IsDigit(r) != unicode.IsDigit(r+1) || unicode.IsLetter(r) != unicode.IsLetter(r+1) || unicode.IsSpace(r+1) {
+						cuts[byte(b)] = true
+					}
+				}
+			}
+		}
+	}
 	var cl []byte
 	for c := range cuts {
 		cl = append(cl, c)
@@ -154,6 +170,7 @@ func buildParserModel(p *Prog) (*parserModel, string) {
 	nonNilErr := func(m *Machine, st *State, call *ssa.CallCommon, args []Val) ([]Val, bool) {
 		return []Val{IfaceV{T: errT, V: "error"}}, true
 	}
+	installUnicodeModels(m)
 	m.Hooks["errors.New"] = nonNilErr
 	m.Hooks["fmt.Errorf"] = nonNilErr
 	m.Hooks["strings.SplitN"] = func(m *Machine, st *State, call *ssa.CallCommon, args []Val) ([]Val, bool) {
